@@ -2,9 +2,22 @@
 # usage: check.sh <property> <quick|thorough>
 # Rebuilds nothing from /repo ahead of time: govc loads /repo/v3's current working tree
 # (go/packages + go/ssa, -tags verif) on every run.
+# thorough: 60 s per obligation, all three solvers must answer and the two families agree; then the
+# must-fail corpus entries of this property (one-line mutants in a scratch worktree) must each be
+# reported by the check - a mutant that goes unnoticed is an error of the machinery (exit 2), not a
+# property violation.
 export GOFLAGS=-mod=mod GOPROXY=off GOSUMDB=off GOTOOLCHAIN=local
 cd /verif
 if [ ! -x /verif/bin/govc ] || [ -n "$(find /verif/govc -name '*.go' -newer /verif/bin/govc -not -path '*/vendor/*' | head -1)" ]; then
   (cd /verif/govc && GOFLAGS=-mod=vendor go build -o /verif/bin/govc .) || { echo "govc build failed"; exit 2; }
 fi
-exec /verif/bin/govc check -prop "$1" -tier "${2:-quick}"
+if [ "${2:-quick}" != "thorough" ]; then
+  exec /verif/bin/govc check -prop "$1" -tier "${2:-quick}"
+fi
+/verif/bin/govc check -prop "$1" -tier thorough; rc=$?
+[ $rc -ne 0 ] && exit $rc
+pfx=$(echo "$1" | tr 'A-Z' 'a-z')-
+st=$(/verif/tools/selftest.sh "$pfx" 2>&1 | grep -v "^WARNING"); src=$?
+echo "$st" | sed 's/^/selftest: /'
+if echo "$st" | grep -q "^MISSED\|^STALE"; then echo "ERROR property=$1 the must-fail corpus was not fully noticed (machinery error, not a violation)"; exit 2; fi
+exit 0
